@@ -516,8 +516,8 @@ func (p *parser) parseMapLiteral() Node {
 		return mapLit
 	}
 	types := make([]*Type, 0, len(mapLit.Pairs))
-	for _, n := range mapLit.Pairs {
-		types = append(types, n.Type())
+	for _, key := range mapLit.Order { // source order: combineTypes depends on the order of its input
+		types = append(types, mapLit.Pairs[key].Type())
 	}
 	sub := combineTypes(types)
 	for key, val := range mapLit.Pairs {
